@@ -16,6 +16,7 @@ STRATA = [
     ("rational", 500, 10000),
     ("max-iter", 500, 10000),
     ("ipm-config", 300, 6000),
+    ("suite", 0, 1),
 ]
 REQUIRED_EVENTS = {"any": ["lp.simplex.judged", "lp.ipm.judged", "lp.simplex.max-iter-reported"]}
 
@@ -41,6 +42,8 @@ def _coef(rng):
 
 
 def gen(stratum, rng, tier):
+    if stratum == "suite":
+        return {"suite": SUITE_FILES}
     n = rng.randint(1, 4)
     m = rng.randint(1, 5)
     A = [[_coef(rng) for _ in range(n)] for _ in range(m)]
@@ -113,9 +116,47 @@ def gen(stratum, rng, tier):
             "minimize": rng.random() < 0.5}
 
 
+SUITE_FILES = ["tests/solvors/test_simplex.py", "tests/solvors/test_interior_point.py", "tests/solvors/test_milp.py"]
+
+
+def run_suite(case, obs):
+    """Thorough tier: the repository's own LP/MILP tests under the monitors (their assertions are ignored)."""
+    import contextlib
+    import io
+    import os
+
+    import pytest
+
+    repo = os.environ.get("VERIF_REPO", "/repo")
+    files = [os.path.join(repo, f) for f in case["suite"] if os.path.exists(os.path.join(repo, f))]
+    if not files:
+        obs.event("suite.no-test-files")
+        return
+    _mon.drain()
+    cwd = os.getcwd()
+    os.chdir(repo)
+    try:
+        with contextlib.redirect_stdout(io.StringIO()), contextlib.redirect_stderr(io.StringIO()):
+            pytest.main(["-q", "-p", "no:cacheprovider", "--no-cov", "-o", "addopts=", "--timeout=600", *files])
+    except SystemExit:
+        pass
+    finally:
+        os.chdir(cwd)
+    for rec in _mon.drain():
+        obs.event("suite.lp-calls")
+        if rec["fn"] == "solve_lp":
+            _mon.judge_simplex(rec, obs, prefix="suite.")
+        else:
+            _mon.judge_interior(rec, obs, prefix="suite.")
+    obs.nontrivial = True
+
+
 def run(case, obs):
     from vf.common import call, is_crash
     from vf.oracles import lp as olp
+
+    if "suite" in case:
+        return run_suite(case, obs)
 
     c, A, b = case["c"], case["A"], case["b"]
     senses = [case["minimize"]] + ([not case["minimize"]] if case["both_senses"] else [])
@@ -142,6 +183,8 @@ def run(case, obs):
 
 
 def shrink(case):
+    if "suite" in case:
+        return
     A, b = case["A"], case["b"]
     if case["both_senses"]:
         yield dict(case, both_senses=False)
